@@ -79,13 +79,19 @@ structure Answer where
   hist : List Nat          -- bucket of every hit, in iteration order (the histogram counts them)
 deriving Repr, DecidableEq
 
+/-- `GetMID` + `GetRID` of a hit -/
+def idOf (ix : Index) (l : Nat) : Option ID :=
+  match ix.getMID l, ix.getRID l with
+  | some m, some r => some (m, r)
+  | _, _ => none
+
 /-- `IndexSearch` with `WithTotal` and a histogram interval (0 = none); `.error` = a panic / missing block -/
 def search (ix : Index) (q : Q) (fromMID toMID : Nat) (rev : Bool) (limit histInterval : Nat) : Except String Answer :=
   let b := borders ix fromMID toMID
   match evalQ ix b.1 b.2 rev q with
   | .error e => .error e
   | .ok lids =>
-    match lids.mapM (fun l => match ix.getMID l, ix.getRID l with | some m, some r => some (m, r) | _, _ => none) with
+    match lids.mapM (idOf ix) with
     | none => .error "id"
     | some ids =>
       .ok { total := lids.length, ids := (dedupConsecutive ids).take limit,
